@@ -631,4 +631,18 @@ def serde_complete(ctx, crate, tag):
                    "fields %s; written: %s" % (sorted(want), sorted(written)))
             ctx.ob(R, x, "deserialised-as-a-struct", "deserialize_struct" in dcalls, de[x].loc() if x in de else "",
                    "Deserialize goes through deserialize_struct")
+            # a field that may be left out when writing (skip_serializing_if) must be optional when reading (default): otherwise the
+            # snapshot of a package without candidates serialises fine and cannot be read back (seed C16-20)
+            skipped = set()
+            for nm, t in calls:
+                if nm == "skip_field":
+                    skipped |= set(cnames(t))
+            required = set()
+            for vb in crate.bodies:
+                if vb.key.endswith("::visit_map") and ("for %s>" % x) in str(vb.d.get("impl_adt") or vb.key):
+                    for i2, t2 in vb.calls():
+                        if t2.get("f") and t2["f"]["name"] == "missing_field":
+                            required |= set(cnames(t2))
+            ctx.ob(R, x, "skippable-fields-are-optional-when-read", not (skipped & required), b.loc(),
+                   "fields that can be skipped when serialising: %s; fields the reader insists on: %s" % (sorted(skipped), sorted(required)))
     ctx.floor(R, "derived Serialize impls of enums / structs with named fields", n, 5)
